@@ -521,8 +521,8 @@ def gen_universe(rng, npk_max, nver_max, with_lock, with_edit=False):
     return show_case(index, root, locked, root2)
 
 
-GRID = [(0, 0, 1, ""), (0, 0, 2, ""), (0, 1, 0, ""), (0, 1, 1, ""), (0, 2, 0, ""), (1, 0, 0, ""), (1, 1, 0, ""),
-        (1, 1, 1, ""), (1, 2, 0, ""), (2, 0, 0, ""), (1, 1, 0, "alpha"), (0, 1, 0, "alpha"), (1, 2, 0, "rc1")]
+GRID = [(0, 0, 1, ""), (0, 1, 0, ""), (0, 1, 1, ""), (0, 2, 0, ""), (1, 0, 0, ""), (1, 1, 0, ""),
+        (1, 1, 1, ""), (1, 2, 0, ""), (2, 0, 0, ""), (1, 1, 0, "alpha"), (0, 1, 0, "alpha")]
 
 
 def grid_reqs(grid):
